@@ -191,3 +191,28 @@ PROPS.update({
         "assumptions": ["workers do not panic inside the per-frame encoder (C07/C17: verified configuration, every argument error is returned as Err)", "non-empty data blocks (as C05)"],
     },
 })
+
+API_RULE = ("api stream: every public entry point (StreamInfo::new / Stream::new, FrameBuf::with_size, FrameBuf fill_interleaved / fill_le_bytes after a full block, "
+            "Context::fill_le_bytes, encode_fixed_size_frame: frame number, sample range at 3 positions x 5 widths, channel mismatch; encode_with_fixed_block_size single- and multi-thread: "
+            "block size, declared channels / width / rate of the source, out-of-range samples at 5 positions, byte delivery with a disagreeing width) on the grid {0, min-1, min, max, max+1, "
+            "2^8+k, 2^16+k, 2^32+k, 2^63+k, usize::MAX-1, usize::MAX} per argument, others valid; calls that may block run under a 20 s watchdog; EXHAUSTIVE over the grid. "
+            "The model (Model/Api.lean, Model/Verify.lean, Model/Source.lean) decides accept/reject for each call and must agree; the direct oracle demands an error for every "
+            "argument outside the documented domain and forbids panic/hang. distinct = (entry point, outcome)")
+
+PROPS.update({
+    "C17": {
+        "streams": {"quick": [("api", [])], "thorough": [("api", ["--thorough"])], "search": [("api", ["--thorough"])]},
+        "profiles": {"quick": ["release", "dev"], "thorough": ["release", "dev"]},
+        "diff_prefix": ["c17."], "oracle_fields": ["o_c17"], "rule": API_RULE,
+        "trusted_base": ["Model/Api.lean, Model/Verify.lean (StreamInfo::new), Model/Source.lean (FrameBuf fills): decision mirrors of the argument checks, tied to the code on the whole grid in both cargo profiles"],
+        "assumptions": ["sample rate 0 is accepted by the code and by the model (the property does not list it); the supported widths are 8/12/16/20/24"],
+    },
+    "C18": {
+        "streams": {"quick": [("comp", ["--cases", 150])], "thorough": [("comp", ["--cases", 4000])], "search": [("comp", ["--cases", 1500])]},
+        "profiles": {"quick": ["release", "dev"], "thorough": ["release", "dev"]},
+        "diff_prefix": ["c18."], "oracle_fields": ["o_c18"], "rule": COMP_RULE,
+        "trusted_base": ["Model/Verify.lean: decision mirrors of the public constructors and verify impls, tied to datatype.rs / verify.rs by the comp stream (accept/reject on the whole grid, both profiles)",
+                         "parse-back of accepted components is decided by the real parser on every accepted case (the parser mirror and its round-trip theorems belong to C15)"],
+        "assumptions": ["typed slice arguments (&[u8], &[u32], &[i16]) hold values of their element type; FrameOffset::Frame carries a u32"],
+    },
+})
